@@ -11,7 +11,7 @@ class P(Property):
     id = 'C18'
     gen_modules = ['gen_varint', 'gen_codes', 'gen_datagram']
     properties_v = 'Properties/C18.v'
-    model_targets = ['Model/Datagram.vo', 'Spec/RFC9297.vo']
+    model_targets = ['Model/Datagram.vo', 'Model/ChunkedDatagram.vo', 'Spec/RFC9297.vo']
     extract_v = 'Extract/ExtractC18.v'
     driver_ml = 'C18_driver.ml'
     harness_bin = 'c18'
@@ -25,7 +25,11 @@ class P(Property):
             'dg.tx: the same on a REAL h3 server connection over SimQuic: get_datagram_sender(4k).send_datagram(payload), observing the one '
             'datagram the transport receives.  dg.dec: all byte strings of length 0..2, all forms at every truncation, quarter ids around '
             '2^60, seeded random strings of 3..9 bytes, payload lengths 0..63 exhaustively and 64..1500 sampled; dg.decc: the same wire bytes '
-            'as non-contiguous buffers cut at every position (complete AND truncated varints, payloads up to 40 bytes).  dg.rx / dg.rxw: a QUIC '
+            'as non-contiguous buffers cut at every position (complete AND truncated varints, payloads up to 40 bytes), EVERY one of the '
+            '2^(n-1) chunkings of each varint form (complete with 0..3 payload bytes, and every truncation), and payloads of 41..1500 bytes in '
+            '2..8 chunks with at least one cut inside the quarter stream id; for dg.decc the MODEL column is Datagram::decode run on the '
+            'same chunk list (Model/ChunkedDatagram.v over the bytes-crate provided methods) and both sides print the chunks of the payload '
+            'buffer left behind (the specification column compares their concatenation).  dg.rx / dg.rxw: a QUIC '
             'datagram arrives at a real h3 server connection (before / while read_datagram is polled) with the connection driver running: '
             'what read_datagram returns and the code the transport is closed with.  non-trivial = distinct cases in which the payload is '
             'reached (dg.enc/dg.tx with a non-empty payload, dg.dec/dg.rx with a complete varint)')
@@ -182,6 +186,45 @@ class P(Property):
                     a = rng.randint(1, l)
                     b2 = rng.randint(a + 1, len(e) - 1)
                     out.append('dg.decc %s.%s.%s' % (e[:a].hex(), e[a:b2].hex(), e[b2:].hex()))
+        # EVERY chunking of every form (complete, with 0..3 payload bytes; and every truncation)
+        def all_chunkings(bs):
+            n = len(bs)
+            for m in range(1 << (n - 1)):
+                parts, prev = [], 0
+                for i in range(1, n):
+                    if m >> (i - 1) & 1:
+                        parts.append(bs[prev:i])
+                        prev = i
+                parts.append(bs[prev:])
+                yield '.'.join(p_.hex() for p_ in parts)
+        out.append('dg.decc -')
+        kk = 0
+        for x in [0, 63, 64, 16383, 2 ** 30 - 1, 2 ** 60 - 1, 2 ** 60, 2 ** 62 - 1] + [rng.getrandbits(60) for _ in range(2 if tier == 'quick' else 40)]:
+            for l in (1, 2, 4, 8):
+                if x >= 2 ** (8 * l - 2):
+                    continue
+                e = enc(x, l)
+                for t in range(1, l):
+                    for ch in all_chunkings(e[:t]):
+                        out.append('dg.decc ' + ch)
+                for extra in (0, 1, 3):
+                    for ch in all_chunkings(e + rb(rng, extra)):
+                        kk += 1
+                        if l == 8 and extra and kk % 4:
+                            continue
+                        out.append('dg.decc ' + ch)
+        # long payloads (up to 1500 bytes) in 2..8 chunks, at least one cut inside the quarter stream id when it has 2+ bytes
+        for i in range(200 if tier == 'quick' else 20000):
+            x = rng.getrandbits(rng.choice([6, 14, 30, 60, 62]))
+            l = 1 if x < 64 else 2 if x < 16384 else 4 if x < 2 ** 30 else 8
+            if i % 5 == 0 and l < 8:
+                l *= 2                                      # non-minimal form
+            e = enc(x, l) + rb(rng, rng.choice([41, 64, 100, 255, 256, 1200, 1472, 1500, rng.randint(41, 1500)]))
+            cuts = set(rng.randint(1, len(e) - 1) for _ in range(rng.randint(1, 7)))
+            if l > 1:
+                cuts.add(rng.randint(1, l - 1))
+            cuts = sorted(cuts)
+            out.append('dg.decc ' + '.'.join(e[a:b_].hex() for a, b_ in zip([0] + cuts, cuts + [len(e)])))
         return out
 
     def canon(self, case, out):
@@ -221,7 +264,14 @@ class P(Property):
                         return False
                     pos += len(tok) // 2
             return pos == len(flat) // 2
-        return spec_match(self.canon(case, out), spec)
+        o = self.canon(case, out)
+        if case.startswith('dg.decc'):
+            # the oracle knows the flat payload only: forget the chunk boundaries of the payload buffer
+            w = o.split()
+            if len(w) == 3 and w[0] == 'ok':
+                w[2] = w[2].replace('.', '') or '-'
+                o = ' '.join(w)
+        return spec_match(o, spec)
 
     def shrink_candidates(self, case):
         w = case.split()
